@@ -687,7 +687,17 @@ def run_decision_part(ctx, model_lines, model_expect, tier):
                         os.remove(world.modpath)
                     gen_of_module = None
                     ops.append("Dm")
-                elif r < 0.55 and os.path.exists(world.modpath):
+                elif r < 0.50 and os.path.exists(world.modpath):
+                    # the module of another file: what a lookup over several directories finds under the same URI-derived path
+                    b = open(world.modpath, "rb").read()
+                    st = _real["stat"](world.modpath)
+                    b2 = re.sub(rb"^_template_filename = (.*)$", lambda m: b"_template_filename = " + ascii(os.path.join(world.root if hasattr(world, "root") else os.path.dirname(world.src), "elsewhere", os.path.basename(world.src))).encode(), b, flags=re.M)
+                    with open(world.modpath, "wb") as f:
+                        f.write(b2)
+                    os.utime(world.modpath, (st.st_mtime, st.st_mtime))
+                    shutil.rmtree(os.path.join(world.moddir, "__pycache__"), ignore_errors=True)
+                    ops.append("F")
+                elif r < 0.58 and os.path.exists(world.modpath):
                     b = open(world.modpath, "rb").read()
                     st = _real["stat"](world.modpath)
                     b2 = re.sub(rb"^_magic_number = (\d+)", lambda m: b"_magic_number = " + str(int(m.group(1)) + 1).encode(), b, flags=re.M)
@@ -710,7 +720,12 @@ def run_decision_part(ctx, model_lines, model_expect, tier):
                     if exists:
                         mst = _real["stat"](world.modpath)
                         mm = re.search(rb"^_magic_number = (\d+)", open(world.modpath, "rb").read(), re.M)
-                        mstate = "%d %d" % (int(mst.st_mtime), int(mm.group(1)) if mm else 0)
+                        mf = re.search(rb"^_template_filename = (.*)$", open(world.modpath, "rb").read(), re.M)
+                        try:
+                            same = 1 if (mf and eval(mf.group(1).decode()) == world.src) else 0
+                        except Exception:  # noqa
+                            same = 0
+                        mstate = "%d %d %d" % (int(mst.st_mtime), int(mm.group(1)) if mm else 0, same)
                     else:
                         mstate = "-"
                     src_m = int(_real["stat"](world.src).st_mtime)
@@ -731,7 +746,7 @@ def run_decision_part(ctx, model_lines, model_expect, tier):
                     case = {"ops": list(ops), "module_before": mstate, "source_mtime": src_m, "magic": magic,
                             "writes": writes, "output": out, "bytecode_cache": not sys.dont_write_bytecode}
                     ctx.nontrivial.add(("dec", h, step))
-                    due = (mstate == "-") or int(mstate.split()[0]) < src_m or int(mstate.split()[1]) != magic
+                    due = (mstate == "-") or int(mstate.split()[0]) < src_m or int(mstate.split()[1]) != magic or mstate.split()[2] == "0"
                     ctx.count("construct:due" if due else "construct:reuse")
                     if writes >= 1:
                         gen_of_module = world.ver
